@@ -476,21 +476,33 @@ func (la *lockAnalysis) entryFor(fn *ssa.Function) Set {
 				deferred bool
 			}
 			var sites []useSite
+			// a closure handed to a helper that takes a lock and then runs it (withKeyLock(key, func() reply {...}),
+			// t.locked(func() {...})): what the helper holds where it calls its function parameter, in the caller's names
+			var wrapped []Set
 			for _, r := range *refs {
 				switch u := r.(type) {
 				case *ssa.Defer:
-					sites = append(sites, useSite{u, true})
-				case *ssa.Call:
-					if u.Call.Value != mc {
+					if u.Call.Value == mc {
+						sites = append(sites, useSite{u, true})
+					} else if ws, ok := la.heldInWrapper(u, mc); ok {
+						wrapped = append(wrapped, ws...)
+					} else {
 						return Set{}
 					}
-					sites = append(sites, useSite{u, false})
+				case *ssa.Call:
+					if u.Call.Value == mc {
+						sites = append(sites, useSite{u, false})
+					} else if ws, ok := la.heldInWrapper(u, mc); ok {
+						wrapped = append(wrapped, ws...)
+					} else {
+						return Set{}
+					}
 				case *ssa.DebugRef:
 				default:
 					return Set{}
 				}
 			}
-			if len(sites) == 0 {
+			if len(sites) == 0 && len(wrapped) == 0 {
 				return Set{}
 			}
 			pf := la.flow(par)
@@ -523,6 +535,30 @@ func (la *lockAnalysis) entryFor(fn *ssa.Function) Set {
 						if !s["D|"+h.Class+"|"+h.Mode+"|"+h.Key] {
 							continue
 						}
+					}
+					key := h.Key
+					for from, to := range sub {
+						key = strings.ReplaceAll(key, from, to)
+					}
+					one["L|"+h.Class+"|"+h.Mode+"|"+renameIdents(key, ren)+"|entry"] = true
+				}
+				if out == nil {
+					out = one
+				} else {
+					for t := range out {
+						if !one[t] {
+							delete(out, t)
+						}
+					}
+				}
+			}
+			// the holds established by wrapping helpers, translated into the closure's names like the caller's own
+			for _, ws := range wrapped {
+				one := Set{}
+				for t := range ws {
+					h, ok := parseTok(t)
+					if !ok {
+						continue
 					}
 					key := h.Key
 					for from, to := range sub {
@@ -1223,5 +1259,107 @@ func (la *lockAnalysis) recheckedUnderLock(s lockSite) bool {
 			return true
 		}
 	}
+	// ... or hands the key to a helper that takes the stripe itself and looks again (storeResult(m, dstKey, set))
+	for _, b := range s.Fn.Blocks {
+		for _, in := range b.Instrs {
+			ci, ok := in.(ssa.CallInstruction)
+			if !ok || in == s.In {
+				continue
+			}
+			cf := callee(ci)
+			if cf == nil || !firstParty(cf) || cf.Blocks == nil || cf == s.Fn {
+				continue
+			}
+			for i, a := range ci.Common().Args {
+				if canon(a) != s.Key || i >= len(cf.Params) {
+					continue
+				}
+				pk := paramCanon(cf.Params[i])
+				for _, o := range la.sites(cf) {
+					if o.Key != pk || o.Write || o.Kind != "keyspace" {
+						continue // looking again means reading the keyspace entry (CheckTTL's locked removal is no second look)
+					}
+					if held, live := la.flow(cf).Held(o.In); live {
+						for _, h := range held {
+							if covers(h, pk) && !strings.HasSuffix(h.Site, "entry") {
+								return true
+							}
+						}
+					}
+				}
+			}
+		}
+	}
 	return false
+}
+
+// heldInWrapper: the call u hands the closure mc to a first-party helper H as a function argument; H calls that
+// parameter directly. Returns, per such call inside H, the locks H certainly holds there (acquired in H), with H's
+// parameter names replaced by the caller's argument expressions.
+func (la *lockAnalysis) heldInWrapper(u ssa.CallInstruction, mc *ssa.MakeClosure) ([]Set, bool) {
+	h := u.Common().StaticCallee()
+	if h == nil || !firstParty(h) || h.Blocks == nil {
+		return nil, false
+	}
+	args := u.Common().Args
+	ai := -1
+	for i, a := range args {
+		if a == ssa.Value(mc) {
+			ai = i
+		}
+	}
+	if ai < 0 || ai >= len(h.Params) {
+		return nil, false
+	}
+	names := map[string]string{}
+	for i, p := range h.Params {
+		if i < len(args) {
+			names[paramCanon(p)] = canon(args[i])
+		}
+	}
+	var out []Set
+	hf := la.flow(h)
+	for _, b := range h.Blocks {
+		for _, in := range b.Instrs {
+			ci, ok := in.(ssa.CallInstruction)
+			if !ok || ci.Common().Value != ssa.Value(h.Params[ai]) {
+				continue
+			}
+			if _, isGo := in.(*ssa.Go); isGo {
+				return nil, false
+			}
+			s, live := hf.Must.Before(in)
+			if !live {
+				continue
+			}
+			one := Set{}
+			for t := range s {
+				hl, ok := parseTok(t)
+				if !ok {
+					continue
+				}
+				one["L|"+hl.Class+"|"+hl.Mode+"|"+renameIdents(hl.Key, names)+"|"+hl.Site] = true
+			}
+			out = append(out, one)
+		}
+	}
+	// the parameter must not escape in any other way (stored, passed on, started as a goroutine)
+	if refs := h.Params[ai].Referrers(); refs != nil {
+		for _, r := range *refs {
+			switch y := r.(type) {
+			case *ssa.Call:
+				if y.Call.Value != ssa.Value(h.Params[ai]) {
+					return nil, false
+				}
+			case *ssa.Defer:
+				if y.Call.Value != ssa.Value(h.Params[ai]) {
+					return nil, false
+				}
+			case *ssa.DebugRef:
+			default:
+				return nil, false
+			}
+		}
+	}
+	return out, len(out) > 0
 }
